@@ -346,6 +346,31 @@ func CheckReclaim(w *World, rec *CycleRecord) ([]Finding, ReclaimFacts) {
 							}
 						}
 					}
+					// ... or by pods of the victims' workloads that were still pending and that the decision itself places
+					// while it re-allocates those workloads (elastic victims): the scenario is validated on the victims and
+					// the reclaimer only
+					grown := 0.0
+					var grownPods []string
+					for k := d.from; k < d.to; k++ {
+						c := rec.Calls[k]
+						if (c.Kind != "bind" && c.Kind != "pipeline") || c.Err != "" {
+							continue
+						}
+						if _, again := replaced[c.Pod]; again {
+							continue
+						}
+						if pv := rec.Before.ByName[c.Pod]; pv != nil && inSubtree(pv.Workload) {
+							grown += Charge(pv.Req, caps[c.Node])[r]
+							grownPods = append(grownPods, c.Pod)
+						}
+					}
+					sort.Strings(grownPods)
+					if grown > 0 && rsh.FairShare[r] > 0 && (ra-own-grown)/rsh.FairShare[r] <= 1+tol {
+						out = append(out, Finding{"c07-ancestor-overshoot-covered-by-pending-pods-of-victim-workloads-placed-by-the-decision", fmt.Sprintf(
+							"after reclaim for %s, queue %s holds %v %s of fair share %v while the sibling %s it took from holds %v of %v: the excess is what %v, pending pods of the victims' workloads in %s's subtree, were given by this very decision; decision: %v; before it: %v",
+							d.preemptor, rq, ra, ResNames[r], rsh.FairShare[r], vq, va, vsh.FairShare[r], grownPods, rq, TraceStrings(rec.Calls[d.from:d.to]), TraceStrings(rec.Calls[:d.from])), rec.Index})
+						continue
+					}
 					sort.Strings(ownPods)
 					if own > 0 && rsh.FairShare[r] > 0 && (ra-own)/rsh.FairShare[r] <= 1+tol {
 						out = append(out, Finding{"c07-ancestor-overshoot-covered-by-same-cycle-placements-of-its-subtree", fmt.Sprintf(
